@@ -222,6 +222,7 @@ func runCase(c Case) vh.Result {
 	var diskAtStart int64 // bytes in the queue directory when the current generation started
 	spill, restartAfterHandback, handbackSeen, armed := false, false, false, false
 	slowMachine := false
+	emptiedForGen := map[string]int{} // ... and the generation that finds each of them
 	emptied := map[string]bool{} // chunk files emptied by the harness before a restart: corrupt, to be removed and counted as dropped once loaded
 	damaged := false
 
@@ -421,8 +422,9 @@ func runCase(c Case) vh.Result {
 				checkDrop := !c.BadDir && !overCapacity
 				for victim := range emptied {
 					// an emptied file that is still in the directory may be loaded, found corrupt and counted as dropped at
-					// any moment - also during this Accept; the rule cannot tell the two apart, so it is not applied then
-					if _, err := os.Stat(filepath.Join(qdir, victim)); err == nil {
+					// any moment - also during this Accept; the rule cannot tell the two apart, so it is not applied then.
+					// Nor in the rest of the generation that found the file: it is removed an instant before it is counted.
+					if _, err := os.Stat(filepath.Join(qdir, victim)); err == nil || emptiedForGen[victim] == generation {
 						checkDrop = false
 					}
 				}
@@ -552,6 +554,7 @@ func runCase(c Case) vh.Result {
 					victim := names[(op.Size)%len(names)]
 					if err := os.Truncate(filepath.Join(qdir, victim), 0); err == nil {
 						emptied[victim] = true
+						emptiedForGen[victim] = generation + 1
 						damaged = true
 					}
 				}
